@@ -31,36 +31,6 @@ open BtcVerif BtcVerif.Spec.ValueSem
 
 abbrev Addr := Nat
 
-inductive SeqKind | ins | outs | stacks | txs
-deriving DecidableEq, Repr
-
-/-- class of an object together with its value-holding attribute slots -/
-inductive Scalars
-  | outpoint (hash : Bytes) (n : Nat)                 -- refs = []
-  | txin (scriptSig : Bytes) (nSequence : Nat)        -- refs = [prevout]
-  | txout (nValue : Int) (scriptPubKey : Bytes)       -- refs = []
-  | seq (k : SeqKind)                                 -- refs = the items
-  | inwit (stack : WitStack)                          -- refs = []
-  | wit                                               -- refs = [vtxinwit]
-  | tx (nVersion : Int) (nLockTime : Nat)             -- refs = [vin, vout, wit]
-  | header (h : Header)                               -- refs = []
-  | block (h : Header)                                -- refs = [vtx]
-deriving DecidableEq, Repr
-
-def Scalars.isSeq : Scalars → Bool
-  | .seq _ => true
-  | _ => false
-
-/-- classes without a mutable variant -/
-def Scalars.alwaysImm : Scalars → Bool
-  | .inwit _ | .wit | .header _ | .block _ | .seq .stacks | .seq .txs => true
-  | _ => false
-
-/-- `vin`/`vout`: `from_tx` and `CTransaction.__init__` always build a new list/tuple for them -/
-def Scalars.rebuilt : Scalars → Bool
-  | .seq .ins | .seq .outs => true
-  | _ => false
-
 structure Obj where
   isMut : Bool
   sc : Scalars
@@ -90,28 +60,6 @@ def unfoldA : Nat → Heap → Addr → Option ATree
     match h[a]? with
     | none => none
     | some o => (mapO (unfoldA f h) o.refs).map (ATree.node a o.isMut o.sc)
-
-def asTxIn : Val → Option TxIn | .txin i => some i | _ => none
-def asTxOut : Val → Option TxOut | .txout i => some i | _ => none
-def asStack : Val → Option WitStack | .inwit i => some i | _ => none
-def asTx : Val → Option Tx | .tx i => some i | _ => none
-
-/-- the value of an object from its own slots and the values of the objects it refers to -/
-def assemble : Scalars → List Val → Option Val
-  | .outpoint h n, [] => some (.outpoint ⟨h, n⟩)
-  | .txin s q, [.outpoint o] => some (.txin ⟨o, s, q⟩)
-  | .txout v s, [] => some (.txout ⟨v, s⟩)
-  | .seq .ins, vs => (mapO asTxIn vs).map .ins
-  | .seq .outs, vs => (mapO asTxOut vs).map .outs
-  | .seq .stacks, vs => (mapO asStack vs).map .stacks
-  | .seq .txs, vs => (mapO asTx vs).map .txs
-  | .inwit st, [] => some (.inwit st)
-  | .wit, [.stacks w] => some (.wit w)
-  | .tx ver lock, [.ins vin, .outs vout, .wit w] =>
-      some (.tx { nVersion := ver, vin := vin, vout := vout, wit := w, nLockTime := lock })
-  | .header hd, [] => some (.header hd)
-  | .block hd, [.txs l] => some (.block ⟨hd, l⟩)
-  | _, _ => none
 
 mutual
 def decode : ATree → Option Val
@@ -216,17 +164,6 @@ def St.target (s : St) (t : Target) : Option Addr := do
   resolve s.heap a t.path
 
 /-! ### writes -/
-
-def applySc : Field → Scalars → Option Scalars
-  | .hash b, .outpoint _ n => some (.outpoint b n)
-  | .n k, .outpoint h _ => some (.outpoint h k)
-  | .scriptSig b, .txin _ q => some (.txin b q)
-  | .nSequence k, .txin s _ => some (.txin s k)
-  | .nValue x, .txout _ s => some (.txout x s)
-  | .scriptPubKey b, .txout v _ => some (.txout v b)
-  | .nVersion x, .tx _ l => some (.tx x l)
-  | .nLockTime k, .tx v _ => some (.tx v k)
-  | _, _ => none
 
 /-- `obj.<field> = value`: `ImmutableSerializable.__setattr__` raises; a mutable class stores
     (`object.__setattr__`; a name that is not a slot raises `AttributeError` as well) -/
